@@ -86,7 +86,23 @@ func c10IdentifierForms(ctx *core.Ctx, cc *CC) {
 					if !ok || !ssax.TypeNamed(fa.X.Type(), "parser", "Frugal") || !isDeclList(fa) {
 						continue
 					}
+					// the list is identified by what it holds (*Constant, *Enum …), so a name
+					// index over the same declarations (constantIndex) is the same list
 					name := fieldNameOfAddr(fa)
+					if st, ok := fa.X.Type().Underlying().(*types.Pointer).Elem().Underlying().(*types.Struct); ok {
+						var el types.Type
+						switch t := st.Field(fa.Field).Type().Underlying().(type) {
+						case *types.Slice:
+							el = t.Elem()
+						case *types.Map:
+							el = t.Elem()
+						}
+						if p, ok := el.(*types.Pointer); ok {
+							if n, ok := p.Elem().(*types.Named); ok {
+								name = n.Obj().Name() + " declarations"
+							}
+						}
+					}
 					base := ssax.Strip(fa.X)
 					self, inc := false, false
 					var classify func(v ssa.Value, d int)
